@@ -80,6 +80,8 @@ pub enum CidForm {
     NonHex,
     NonAscii,
     Duplicate,
+    /// two client id headers: client B's first, client A's second
+    DuplicateBFirst,
     LeadingSpace,
 }
 
@@ -169,7 +171,7 @@ pub fn classify(d: &Dim) -> Class {
             CidForm::NonAscii => bad.push("client id not text"),
             CidForm::LeadingSpace => amb.push("client id with surrounding whitespace"),
             CidForm::Upper | CidForm::Simple | CidForm::Braced | CidForm::Urn => amb.push("alternative spelling of a well-formed client id"),
-            CidForm::Duplicate => amb.push("two client id headers"),
+            CidForm::Duplicate | CidForm::DuplicateBFirst => amb.push("two client id headers"),
         }
     }
     if d.route.has_pid() {
@@ -237,14 +239,14 @@ fn spell(u: Uuid, f: CidForm) -> Vec<Vec<u8>> {
             s[3] = 0xe9;
             vec![s]
         }
-        CidForm::Duplicate => vec![h.clone().into_bytes(), h.into_bytes()],
+        CidForm::Duplicate | CidForm::DuplicateBFirst => vec![h.clone().into_bytes(), h.into_bytes()],
         CidForm::LeadingSpace => vec![format!(" {h}").into_bytes()],
     }
 }
 
 pub fn build(d: &Dim, ctx: &Ctx) -> HttpReq {
     let (client, latest) = match d.cid {
-        CidForm::KnownB => (ctx.b, ctx.latest_b),
+        CidForm::KnownB | CidForm::DuplicateBFirst => (ctx.b, ctx.latest_b),
         CidForm::Unseen => (ctx.unseen, Uuid::nil()),
         _ => (ctx.a, ctx.latest_a),
     };
@@ -278,6 +280,8 @@ pub fn build(d: &Dim, ctx: &Ctx) -> HttpReq {
     let mut vals = spell(client, d.cid);
     if d.cid == CidForm::Duplicate {
         vals[1] = dup_second;
+    } else if d.cid == CidForm::DuplicateBFirst {
+        vals[1] = ctx.a.to_string().into_bytes();
     }
     for v in vals {
         headers.push(("X-Client-Id".into(), v));
@@ -429,7 +433,7 @@ fn cache_control_ok(raw: &RawHttp) -> bool {
 pub fn dims(p: &GrammarParams) -> Vec<Dim> {
     let routes = [Route::Index, Route::AddVersion, Route::GetChild, Route::AddSnapshot, Route::GetSnapshot, Route::UnknownLeaf, Route::UnknownVersion, Route::TrailingSlash, Route::WrongPrefix];
     let methods: Vec<&'static str> = if p.full_methods { vec!["GET", "POST", "PUT", "DELETE", "HEAD", "PATCH", "OPTIONS"] } else { vec!["GET", "POST", "PUT", "DELETE", "HEAD"] };
-    let cids = [CidForm::Known, CidForm::KnownB, CidForm::Unseen, CidForm::Absent, CidForm::Empty, CidForm::Upper, CidForm::Simple, CidForm::Braced, CidForm::Urn, CidForm::Len35, CidForm::Len37, CidForm::NonHex, CidForm::NonAscii, CidForm::Duplicate, CidForm::LeadingSpace];
+    let cids = [CidForm::Known, CidForm::KnownB, CidForm::Unseen, CidForm::Absent, CidForm::Empty, CidForm::Upper, CidForm::Simple, CidForm::Braced, CidForm::Urn, CidForm::Len35, CidForm::Len37, CidForm::NonHex, CidForm::NonAscii, CidForm::Duplicate, CidForm::DuplicateBFirst, CidForm::LeadingSpace];
     let pids = [PidForm::Latest, PidForm::Nil, PidForm::Fresh, PidForm::NotUuid, PidForm::Empty, PidForm::Overlong, PidForm::Braced, PidForm::Simple, PidForm::Upper];
     let cts = [CtForm::Right, CtForm::Wrong, CtForm::OtherEndpoints, CtForm::Absent, CtForm::WithParam, CtForm::UpperCase];
     let small = [BodyForm::None, BodyForm::EmptyChunks, BodyForm::One, BodyForm::Multi, BodyForm::MultiWithEmpty, BodyForm::ThenError];
@@ -476,7 +480,10 @@ pub fn run_grammar(p: &GrammarParams, ds: &[Dim], empty_state: bool) -> (Grammar
         // Some(true) = on the list, Some(false) = well-formed but not on the list, None = n/a
         let al = p.allow.as_ref()?;
         match c {
-            CidForm::Known | CidForm::Upper | CidForm::Simple | CidForm::Braced | CidForm::Urn | CidForm::Duplicate => Some(al.contains(&0)),
+            CidForm::Known | CidForm::Upper | CidForm::Simple | CidForm::Braced | CidForm::Urn => Some(al.contains(&0)),
+            // two headers: which one the server acts for is its business (no status is demanded);
+            // what is demanded is that no storage transaction is opened for an unlisted id (below)
+            CidForm::Duplicate | CidForm::DuplicateBFirst => None,
             CidForm::KnownB => Some(al.contains(&1)),
             CidForm::Unseen => Some(false),
             _ => None,
@@ -488,6 +495,7 @@ pub fn run_grammar(p: &GrammarParams, ds: &[Dim], empty_state: bool) -> (Grammar
         live.counter.txns.store(0, Ordering::SeqCst);
         live.counter.writes.store(0, Ordering::SeqCst);
         live.counter.calls.store(0, Ordering::SeqCst);
+        live.counter.clients.lock().unwrap().clear();
         let resp = live.s.sut.send_http(&req);
         let txns = live.counter.txns.load(Ordering::SeqCst);
         let writes = live.counter.writes.load(Ordering::SeqCst);
@@ -557,6 +565,17 @@ pub fn run_grammar(p: &GrammarParams, ds: &[Dim], empty_state: bool) -> (Grammar
                     if matches!(d.body, BodyForm::Limit | BodyForm::LimitMinus1) && raw.status != 200 && !ok_unlisted {
                         findings.push(GFinding { monitor: "C15", class: "limit-not-accepted".into(), msg: format!("a body of {:?} bytes must be accepted, answered {}", d.body, raw.status), dim: dimstr.clone() });
                     }
+                }
+            }
+        }
+        // ---- C16, whatever the shape of the request: under an allow-list no storage transaction
+        //      is ever opened for a client id that is not on it
+        if mon("C16") {
+            if let Some(al) = &p.allow {
+                let allowed: Vec<Uuid> = al.iter().map(|c| client_uuid(p.seed, *c)).collect();
+                let touched: Vec<Uuid> = live.counter.clients.lock().unwrap().clone();
+                if let Some(u) = touched.iter().find(|u| !allowed.contains(u)) {
+                    findings.push(GFinding { monitor: "C16", class: format!("storage-opened-for-unlisted-client:{:?}", d.route), msg: format!("a storage transaction was opened for client {u}, which is not on the allow-list (answer {})", raw.status), dim: dimstr.clone() });
                 }
             }
         }
